@@ -25,6 +25,17 @@
    include pairs whose output name is EMPTY for accepted names (empty group, group that takes no part,
    reference to a group that does not exist, "$1_sum").  Self-check of the oracle: TLC's OutKey must
    agree with Go's regexp FindSubmatchIndex + Expand (disagreement = machinery error, exit 2).
+4. Filters reconfigured at run time: MatcherUpd.tla (a filter is created and then updated any number of
+   times; an update replaces the options it names, possibly by the EMPTY value, and leaves the others
+   alone; invariant: for every name, what is in force = the conjunction of the options the filter now
+   has; the deviations "a cleared regex / notRegex stays in force" and "a cleared prefix / notPrefix
+   stays in force" must be rejected by TLC) is model-checked; TLC (-simulate, MatcherUpdGen.tla)
+   generates behaviours (start filter, updates); the driver creates a real route / destination in a
+   real table (sendAllMatch, sendFirstMatch, consistentHashing route filter; destination filter under
+   sendAllMatch / sendFirstMatch), applies every update through Table.UpdateRoute /
+   Table.UpdateDestination (what modRoute / modDest call) and after every step sends one line per name
+   through the table; MatcherTrace.tla re-evaluates Accept under MatcherUpdOps!Merge of the updates so
+   far for every observation.
 """
 import json, os, random
 from checks import mtlib
@@ -34,6 +45,47 @@ LEVEL = "model_checking"
 
 SITES = ["blacklist", "route", "dest_all", "dest_first", "aggroute", "aggdest_all", "aggdest_first"]
 AGG_SITES = ["agg_keep", "agg_drop", "aggc_drop"]
+UPD_SITES = ["route", "dest_all", "route_first", "dest_first", "route_chash"]
+OPTS = ("prefix", "notPrefix", "sub", "notSub", "regex", "notRegex")
+
+
+def update_histories(ctx, num, depth, rich):
+    """TLC walks MatcherUpd: behaviours (start filter, `depth` updates) with, per step, the options the filter
+    has afterwards and Accept's verdict for every name (used to explain rejections and to measure coverage)"""
+    r = ctx.tlc("MatcherUpdGen", "MatcherUpdGen.cfg", workers=1, timeout=3000, heap="4g", tag="gen_upd",
+                consts=dict(UBug="none", URich=rich, UDepth=depth, UFan=3),
+                simulate="num=%d" % num, args=["-depth", str(depth + 3), "-seed", str(ctx.seed)])
+    names = None
+    for x in ctx.tlc_printed(r, "@@N"):
+        names = json.loads(x)["names"]
+    gen = [json.loads(x) for x in ctx.tlc_printed(r, "@@U")]
+    if names is None or len(gen) != num:
+        raise Machinery("MatcherUpdGen printed %d of %d behaviours; log %s" % (len(gen), num, r["log"]))
+    idx = [i for i, n in enumerate(names) if n != ""]
+    stats = dict(steps=0, verdict_changes=0, cleared={o: 0 for o in OPTS}, replaced={o: 0 for o in OPTS},
+                 set_from_empty={o: 0 for o in OPTS}, accepted_only_after_clearing={o: 0 for o in OPTS})
+    hs = []
+    for h, g in enumerate(gen):
+        if len(g["steps"]) != depth or any(len(st["expect"]) != len(names) for st in g["steps"]):
+            raise Machinery("MatcherUpdGen: malformed behaviour %d" % h)
+        conf, exp = g["f"], g["expect"]
+        for st in g["steps"]:
+            stats["steps"] += 1
+            changed = sum(1 for i in idx if exp[i] != st["expect"][i])
+            stats["verdict_changes"] += changed
+            for o in st["set"]:
+                if conf[o] and not st["go"][o]:
+                    stats["cleared"][o] += 1
+                    stats["accepted_only_after_clearing"][o] += sum(1 for i in idx if exp[i] == "0" and st["expect"][i] == "1")
+                elif conf[o] and st["go"][o] != conf[o]:
+                    stats["replaced"][o] += 1
+                elif not conf[o] and st["go"][o]:
+                    stats["set_from_empty"][o] += 1
+            conf, exp = st["conf"], st["expect"]
+        hs.append(dict(h=h, site=UPD_SITES[(h + ctx.seed) % len(UPD_SITES)], f=g["f"], ast=g["ast"],
+                       steps=[dict(set=st["set"], go=st["go"], val=st["val"]) for st in g["steps"]],
+                       names=[names[i] for i in idx]))
+    return names, gen, hs, stats
 
 
 def compare_matcher(ctx, names, cases, res, stats):
@@ -156,10 +208,10 @@ def cache_histories(ctx, names, ccases, rng, n, nops):
     return hs, stats
 
 
-def split_hist(events):
+def split_hist(events, start="hist"):
     blocks, cur = [], None
     for e in events:
-        if e["ev"] == "hist":
+        if e["ev"] == start:
             cur = [e]
             blocks.append(cur)
         else:
@@ -173,8 +225,8 @@ def run(ctx):
     stats = dict(pairs=0, nontrivial_pairs=0, bad_match=0)
     # development aid, honoured only when trying a change out on a scratch copy of the repository
     # (VERIF_REPO): run only some parts, e.g. VERIF_C03_PARTS=sites,cache
-    parts = set((os.environ.get("VERIF_C03_PARTS") or "matcher,sites,cache").split(",")) \
-        if os.environ.get("VERIF_REPO") else {"matcher", "sites", "cache"}
+    parts = set((os.environ.get("VERIF_C03_PARTS") or "matcher,sites,cache,updates").split(",")) \
+        if os.environ.get("VERIF_REPO") else {"matcher", "sites", "cache", "updates"}
 
     # ---- 0. the cache state machine: cached answer = fresh answer, and the invariant is not vacuous
     ctx.tlc("AggCacheMC", "AggCache_mc.cfg", consts=dict(CBug="none"), workers=4, timeout=1500)
@@ -184,6 +236,15 @@ def run(ctx):
                     expect_ok=False, count=False)
         if r["violated"] not in ("CachedIsFresh", "EntriesFresh"):
             raise Machinery("%s is not rejected by AggCache's invariants (vacuity); log %s" % (what, r["log"]))
+
+    # ---- 0b. a filter that is updated: in force = configured, and the invariant is not vacuous
+    ctx.tlc("MatcherUpd", "MatcherUpd_mc.cfg", consts=dict(UBug="none", URich=ctx.pick(1, 2)), workers=4, timeout=1500)
+    for bug, what in (("stale_regex_after_clear", "a regex / notRegex that stays in force after the option was cleared"),
+                      ("stale_prefix_after_clear", "a prefix / notPrefix that stays in force after the option was cleared")):
+        r = ctx.tlc("MatcherUpd", "MatcherUpd_mc.cfg", consts=dict(UBug=bug, URich=1), workers=4, timeout=1500,
+                    expect_ok=False, count=False)
+        if r["violated"] != "InForceIsConfigured":
+            raise Machinery("%s is not rejected by MatcherUpd's invariant (vacuity); log %s" % (what, r["log"]))
 
     # ---- 1. matcher decision cases
     if "matcher" not in parts:
@@ -274,8 +335,70 @@ def run(ctx):
     cb, ce, crej = mtlib.validate_blocks(ctx, "MatcherTrace", "MatcherTrace.cfg", split_hist(cev), "cache_trace.ndjson",
                                          sig_cache, rej_cache, max_rounds=6)
 
+    # ---- 3b. filters reconfigured at run time
+    unames, ugen, uhs, ustats = update_histories(ctx, ctx.pick(100, 500), ctx.pick(5, 7), ctx.pick(2, 2))
+    if not (ustats["cleared"]["regex"] and ustats["cleared"]["notRegex"] and ustats["cleared"]["prefix"] and ustats["cleared"]["sub"]
+            and ustats["replaced"]["regex"] and ustats["replaced"]["notRegex"]
+            and ustats["accepted_only_after_clearing"]["regex"] and ustats["accepted_only_after_clearing"]["notRegex"]):
+        raise Machinery("update behaviours lack steps that clear / replace a regex or notRegex with an effect on some name: %s" % ustats)
+    ctx.log("updates: %d behaviours x %d steps at %s; %s" % (len(uhs), len(uhs[0]["steps"]), "/".join(UPD_SITES), ustats))
+    uf = ctx.write_ndjson("mt_updhist.ndjson", uhs)
+    utf = ctx.out + "/mt_updtrace.ndjson"
+    ctx.go_test("mt", run="^TestUpdates$", env=dict(VERIF_MT_UPDHIST=uf, VERIF_MT_UPDTRACE=utf), timeout=3000)
+    uev = ctx.read_ndjson(utf)
+    for e in uev:
+        for k in ("go", "cfg"):
+            if k in e:
+                e[k] = json.dumps(e[k], sort_keys=True)
+    nuprobe = sum(len(e["names"]) for e in uev if e["ev"] == "uprobe")
+    if sum(1 for e in uev if e["ev"] == "uprobe") != sum(len(h["steps"]) + 1 for h in uhs):
+        raise Machinery("update driver recorded %d probe rounds for %d behaviours" % (sum(1 for e in uev if e["ev"] == "uprobe"), len(uhs)))
+
+    def upd_context(b, i):
+        """what the specification says about the point of a behaviour where event i of block b was recorded"""
+        g = ugen[b[0]["h"]]
+        step = b[i].get("step", 0)
+        confs = [g["f"]] + [st["conf"] for st in g["steps"]]
+        exps = [g["expect"]] + [st["expect"] for st in g["steps"]]
+        conf = confs[step]
+        gone = [o for o in OPTS if not conf[o] and any(c[o] for c in confs[:step])]
+        return g, step, conf, exps[step], gone
+
+    def sig_upd(b, i):
+        g, step, conf, exp, gone = upd_context(b, i)
+        return "update:%s/now=%s/cleared=%s" % (b[0]["site"], mtlib.optclass(conf), "+".join(gone) or "none")
+
+    def rej_upd(b, i, sig, inv):
+        e = b[i]
+        g, step, conf, exp, gone = upd_context(b, i)
+        ups = [x["go"] for x in b[:i + 1] if x["ev"] == "update"]
+        call = "Table.UpdateDestination(route, 0, ...)" if b[0]["site"].startswith("dest_") else "Table.UpdateRoute(route, ...)"
+        if e["ev"] != "uprobe":
+            ctx.violation(sig, "update behaviour %d at %s: event %s is not accepted by the specification" % (b[0]["h"], b[0]["site"], json.dumps(e)),
+                          dict(history=b[:i + 1]))
+            return
+        want = {n: exp[k] for k, n in enumerate(unames)}
+        bad = [("".join(n), want["".join(n)], o) for n, o in zip(e["names"], e["obs"]) if str(o[0]) != want["".join(n)]]
+        ctx.violation(sig, "%s filter created as %s and then updated by %s with %s: the filter now has the options %s (the real code reports %s; "
+                      "options that were set earlier and are empty now: %s), but for %d of %d names the deliveries observed are not what the "
+                      "conjunction of these options requires, e.g. name %r: the filter %s it, observed deliveries %s" % (
+                          b[0]["site"], b[0]["go"], call, " ; ".join(ups) or "(no update yet)", json.dumps(conf, sort_keys=True), e["cfg"],
+                          ", ".join(gone) or "none", len(bad), len(e["names"]), bad[0][0] if bad else "?",
+                          ("accepts" if bad[0][1] == "1" else "rejects") if bad else "?", bad[0][2] if bad else "?"),
+                      dict(site=b[0]["site"], start=b[0]["go"], updates=ups, options_now=conf, reported=e["cfg"],
+                           names=[x[0] for x in bad[:20]], accept=[x[1] for x in bad[:20]], observed=[x[2] for x in bad[:20]]))
+
+    ub, ue, urej = mtlib.validate_blocks(ctx, "MatcherTrace", "MatcherTrace.cfg", split_hist(uev, "uhist"), "upd_trace.ndjson",
+                                         sig_upd, rej_upd, max_rounds=5)
+
     # ---- 4. the binding is real: one corrupted observation must be rejected exactly there
     if not ctx.violations:
+        def corrupt_upd(ev):
+            k = [i for i, e in enumerate(ev) if e["ev"] == "uprobe"][3]
+            ev[k]["obs"][5][0] = 1 - ev[k]["obs"][5][0]
+            return k
+        mtlib.selftest(ctx, "MatcherTrace", "MatcherTrace.cfg", uev[:60], corrupt_upd, "flipped observation after an update", "upd")
+
         def corrupt_site(ev):
             i = min(len(ev) - 1, 37)
             ev[i]["obs"][0] = 1 - ev[i]["obs"][0]
@@ -298,7 +421,13 @@ def run(ctx):
         ctx.cov["binding_selftests"] = "passed"
 
     cov = ctx.cov
-    cov["evaluations"] = stats["pairs"] + len(events) + nlook
+    cov["evaluations"] = stats["pairs"] + len(events) + nlook + nuprobe
+    cov["update_behaviours"] = len(uhs)
+    cov["update_steps"] = ustats["steps"]
+    cov["update_probes_validated"] = nuprobe if not urej else 0
+    cov["update_steps_clearing"] = ustats["cleared"]
+    cov["update_steps_replacing"] = ustats["replaced"]
+    cov["update_verdict_changes"] = ustats["verdict_changes"]
     cov["distinct_nontrivial"] = stats["nontrivial_pairs"]
     cov["site_events_validated"] = site_ok
     cov["site_value_sensitive_triples"] = nsens
@@ -312,8 +441,11 @@ def run(ctx):
                    "names = all strings up to length %d over %d characters; non-trivial = pairs of filters whose verdict vector is "
                    "neither all-accept nor all-reject.  Use sites: %d events at blacklist/route/destination(all,first)/aggregation"
                    "(keep,drop,cache)/aggregate-routing sites, each re-evaluated by MatcherTrace.tla; %d cache histories over %d "
-                   "TLC-enumerated (filter, output template) pairs, each with and without drop-raw." % (
-                       ctx.pick(3, 4), 4, len(events), len(hs), len(ccases)))
+                   "TLC-enumerated (filter, output template) pairs, each with and without drop-raw.  Run-time updates: %d TLC-simulated "
+                   "behaviours of MatcherUpd (start filter + %d updates over value pools incl. the empty value), replayed through "
+                   "Table.UpdateRoute / Table.UpdateDestination at %s, %d names probed after every step." % (
+                       ctx.pick(3, 4), 4, len(events), len(hs), len(ccases), len(uhs), len(uhs[0]["steps"]), "/".join(UPD_SITES),
+                       len(uhs[0]["names"])))
     big = max(cases, key=lambda c: len(c["f"]["regex"]) + len(c["f"]["notRegex"]))
     ctx.sample(dict(filter=big["f"], names=names[:12], expect=big["expect"][:12]))
     ctx.sample(dict(site_event={k: events[0][k] for k in ("site", "go", "name", "v", "t", "obs")}))
@@ -321,5 +453,8 @@ def run(ctx):
     ctx.assumptions += [
         "metric names are ASCII without newline (the regex semantics of '.' and negated classes in the specification assume it)",
         "destinations are observed through their conn_down_no_spool counters (endpoint 127.0.0.1:1 refuses connections) after a Flush() round trip",
-        "aggregators are stepped with an unbuffered inbox, an injected clock, explicit ticks and a Snapshot() barrier after every step"]
+        "aggregators are stepped with an unbuffered inbox, an injected clock, explicit ticks and a Snapshot() barrier after every step",
+        "an update (modRoute / modDest, Table.UpdateRoute / Table.UpdateDestination) replaces the options it names and keeps the others "
+        "(docs/tcp-admin-interface.md: 'modify route by updating one or more ... option strings'); an option can only be cleared through "
+        "the Go API (the admin grammar has no empty word)"]
     cov["trusted_base"] = ["TLC", "Go regexp as cross-check of the specification's regex semantics", "harness/mt driver (records only)"]
